@@ -34,8 +34,9 @@ const (
 	gContinue        // continue
 	gReturn          // return r   (only inside a function)
 	gBreakBad        // break inside a function literal inside a loop (compile error expected)
+	gEmpty           // nothing: an empty block (only as the whole body of a wrapper)
 	nAtoms
-	gFail = 99 // r = r + undefined: fails at run time (C14 only)
+	gFail = 90 // gFail+k: the k-th failing atom (C14 only)
 )
 
 // wrappers
@@ -65,8 +66,8 @@ func genAtoms(c gctx, size3 bool) []*gnode {
 			if !c.inFunc {
 				continue
 			}
-		case gBreakBad:
-			continue // added explicitly below wFunc inside a loop
+		case gBreakBad, gEmpty:
+			continue // added explicitly as wrapper bodies
 		}
 		out = append(out, &gnode{kind: k})
 	}
@@ -106,6 +107,7 @@ func genStmts(n int, c gctx) []*gnode {
 	var out []*gnode
 	for w := wIf; w < wEnd; w++ {
 		bc := bodyCtx(w, c)
+		empty := []*gnode{{kind: gEmpty}}
 		if w == wIfElse {
 			for k := 1; k < n-1; k++ {
 				for _, b1 := range genSeqs(k, bc) {
@@ -114,10 +116,21 @@ func genStmts(n int, c gctx) []*gnode {
 					}
 				}
 			}
+			if n >= 2 {
+				// one branch empty (an empty block counts no node)
+				for _, b := range genSeqs(n-1, bc) {
+					out = append(out, &gnode{kind: w, bodies: [][]*gnode{empty, b}})
+					out = append(out, &gnode{kind: w, bodies: [][]*gnode{b, empty}})
+				}
+			}
 			continue
 		}
 		for _, b := range genSeqs(n-1, bc) {
 			out = append(out, &gnode{kind: w, bodies: [][]*gnode{b}})
+		}
+		if n == 2 {
+			// the wrapper around an empty block
+			out = append(out, &gnode{kind: w, bodies: [][]*gnode{empty}})
 		}
 		if w == wFunc && c.inLoop && n == 2 {
 			// break inside a function literal inside a loop must not bind to the loop
@@ -134,6 +147,7 @@ type grender struct {
 	// failCalls: uids of the function literals that enclose the failing atom,
 	// innermost first (C14)
 	failCalls []string
+	nfail     int
 }
 
 func (g *grender) s() string {
@@ -157,8 +171,22 @@ func (g *grender) close() string {
 	return " }"
 }
 
-const genFailText = "r = r + undefined"
+// failing atoms (C14): each fails when executed; the second and third fail in
+// an instruction without operands (the VM then looks the position up from the
+// preceding instruction), the fourth in a call
+var genFailTexts = []string{"r = r + undefined", "r = -m", "for e in r {\nr = 0\n}", "r()"}
+var genFailMsgs = []string{"invalid operation: int + undefined", "invalid operation: -map", "not iterable: int", "not callable: int"}
 
+// first line of a failing atom: the line an error must report
+func genFailLine(k int) string {
+	t := genFailTexts[k]
+	for i := 0; i < len(t); i++ {
+		if t[i] == '\n' {
+			return t[:i]
+		}
+	}
+	return t
+}
 
 var genConds = []string{"x < y", "c", "x == 0", "r > 1", "!c || y < 0", "y >= x"}
 
@@ -185,9 +213,13 @@ func (g *grender) seq(b []*gnode) string {
 }
 
 func (g *grender) stmt(n *gnode) string {
+	if n.kind >= gFail && n.kind < gFail+len(genFailTexts) {
+		g.nfail++
+		return genFailTexts[n.kind-gFail]
+	}
 	switch n.kind {
-	case gFail:
-		return genFailText
+	case gEmpty:
+		return ""
 	case gAddR:
 		return "r += x"
 	case gSetX:
@@ -231,8 +263,9 @@ func (g *grender) stmt(n *gnode) string {
 		return "q" + u + " := 0" + g.s() + "for " + g.open() + "q" + u + "++" + g.s() + "if q" + u + " > 2 { break }" + g.s() + g.seq(n.bodies[0]) + g.close()
 	case wFunc:
 		u := g.id()
+		before := g.nfail
 		body := g.seq(n.bodies[0])
-		if containsStr(body, genFailText) {
+		if g.nfail > before {
 			g.failCalls = append(g.failCalls, u)
 		}
 		return "fn" + u + " := func() " + g.open() + body + g.close() + g.s() + "fn" + u + "()"
@@ -242,10 +275,10 @@ func (g *grender) stmt(n *gnode) string {
 
 // contexts
 const (
-	GTop     = iota // statements at top level: x, y, r, m are globals
-	GFunc           // inside a function body: x, y parameters, r, m locals
-	GClosure        // inside a closure: x a captured parameter, y, r, m captured locals
-	GLoopFunc       // inside a loop inside a function body
+	GTop      = iota // statements at top level: x, y, r, m are globals
+	GFunc            // inside a function body: x, y parameters, r, m locals
+	GClosure         // inside a closure: x a captured parameter, y, r, m captured locals
+	GLoopFunc        // inside a loop inside a function body
 	nGCtx
 )
 
@@ -391,6 +424,7 @@ type GenFail struct {
 	Name      string
 	Src       string
 	WantLines []int
+	WantMsg   string
 }
 
 func lineOf(src, sub string) int {
@@ -410,10 +444,10 @@ func lineOf(src, sub string) int {
 
 // withOneFail: every variant of the sequence b in which one atom is replaced
 // by the failing atom.
-func withOneFail(b []*gnode) [][]*gnode {
+func withOneFail(b []*gnode, fk int) [][]*gnode {
 	var out [][]*gnode
 	for k, n := range b {
-		for _, v := range nodeWithOneFail(n) {
+		for _, v := range nodeWithOneFail(n, fk) {
 			c := append([]*gnode{}, b...)
 			c[k] = v
 			out = append(out, c)
@@ -422,13 +456,13 @@ func withOneFail(b []*gnode) [][]*gnode {
 	return out
 }
 
-func nodeWithOneFail(n *gnode) []*gnode {
+func nodeWithOneFail(n *gnode, fk int) []*gnode {
 	if n.kind < nAtoms {
-		return []*gnode{{kind: gFail}}
+		return []*gnode{{kind: gFail + fk}}
 	}
 	var out []*gnode
 	for bi, b := range n.bodies {
-		for _, v := range withOneFail(b) {
+		for _, v := range withOneFail(b, fk) {
 			bs := append([][]*gnode{}, n.bodies...)
 			bs[bi] = v
 			out = append(out, &gnode{kind: n.kind, bodies: bs})
@@ -454,7 +488,7 @@ func genFailWrap(body string, k int) (src string, outer []string) {
 func genFailFamily(maxFull int, nested bool) []GenFail {
 	var out []GenFail
 	seen := map[string]bool{}
-	add := func(k int, b []*gnode) {
+	add := func(k int, b []*gnode, fk int) {
 		g := &grender{sep: "\n"}
 		body := g.seq(b)
 		src, outer := genFailWrap(body, k)
@@ -462,7 +496,7 @@ func genFailFamily(maxFull int, nested bool) []GenFail {
 			return
 		}
 		seen[src] = true
-		want := []int{lineOf(src, genFailText)}
+		want := []int{lineOf(src, genFailLine(fk))}
 		for _, u := range g.failCalls {
 			want = append(want, lineOf(src, "fn"+u+"()"))
 		}
@@ -474,27 +508,44 @@ func genFailFamily(maxFull int, nested bool) []GenFail {
 				panic("gen: cannot locate an expected line in " + src)
 			}
 		}
-		out = append(out, GenFail{Name: "genfail-" + gctxNames[k] + ": " + body, Src: src, WantLines: want})
+		out = append(out, GenFail{Name: "genfail-" + gctxNames[k] + ": " + body, Src: src, WantLines: want, WantMsg: genFailMsgs[fk]})
 	}
-	for k := 0; k < nGCtx; k++ {
-		c := gctxOf(k)
-		for n := 1; n <= maxFull; n++ {
-			for _, b := range genSeqs(n, c) {
-				for _, v := range withOneFail(b) {
-					add(k, v)
+	for fk := range genFailTexts {
+		for k := 0; k < nGCtx; k++ {
+			c := gctxOf(k)
+			for n := 1; n <= maxFull; n++ {
+				for _, b := range genSeqs(n, c) {
+					for _, v := range withOneFail(b, fk) {
+						add(k, v, fk)
+					}
 				}
 			}
-		}
-		if nested {
+			// dead code directly before the failing statement: W(exit; atom) then fail
 			for w := wIf; w < wEnd; w++ {
 				if w == wIfElse {
 					continue
 				}
-				for w2 := wIf; w2 < wEnd; w2++ {
-					if w2 == wIfElse {
+				bc := bodyCtx(w, c)
+				for _, ex := range []int{gReturn, gBreak, gContinue} {
+					if (ex == gReturn && !bc.inFunc) || (ex != gReturn && !bc.inLoop) {
 						continue
 					}
-					add(k, []*gnode{{kind: w, bodies: [][]*gnode{{{kind: w2, bodies: [][]*gnode{{{kind: gFail}}}}}}}})
+					for _, a := range []int{gAddR, gDecl} {
+						add(k, []*gnode{{kind: w, bodies: [][]*gnode{{{kind: ex}, {kind: a}}}}, {kind: gFail + fk}}, fk)
+					}
+				}
+			}
+			if nested {
+				for w := wIf; w < wEnd; w++ {
+					if w == wIfElse {
+						continue
+					}
+					for w2 := wIf; w2 < wEnd; w2++ {
+						if w2 == wIfElse {
+							continue
+						}
+						add(k, []*gnode{{kind: w, bodies: [][]*gnode{{{kind: w2, bodies: [][]*gnode{{{kind: gFail + fk}}}}}}}}, fk)
+					}
 				}
 			}
 		}
